@@ -197,7 +197,7 @@ theorem phaseCase_phase (c : Cfg) (s : St) (ha : s.again = InitPhase) (hnf : rec
   · rw [pc11 c s h]; split
     · rename_i hh; exact Or.inl hh
     · exact via _ (deliver_again c s) (deliver_phase c s)
-  · rw [pc12 c s h]; exact via _ (sendPass_again c s) (sendPass_phase c s)
+  · rw [pc12 c s h]; exact via _ (sendPassE_again c s) (sendPassE_phase c s)
   · rw [pc13 c s h]; split
     · split
       · rw [afterPEd_true c (setRetry s) (by simp [setRetry, liftF])]
@@ -328,6 +328,18 @@ theorem step_Oinv (c : Cfg) (s : St) (hg : Ginv c s) (ho : Oinv c s) : Oinv c (s
   · exact ho
   · rename_i hnh
     have hnh : s.halted = false := by simpa using hnh
+    split
+    · -- [proxy8] what follows the exhausted task loop: no filter runs, the worker stays or goes on to Oneway / UpFilter
+      obtain ⟨⟨ft, fc, _, fp, _, _, _⟩, hph⟩ := finishStart_form c s hg hnh
+      refine ⟨by rw [ft]; exact ho.ord, fun a ha => ?_, by rw [ft]; exact ho.reg⟩
+      rw [ft] at ha
+      rcases ho.link a ha with hl | ⟨hl1, hl2⟩
+      · rw [hnh] at hl; cases hl
+      · rcases hph with h | ⟨_, h⟩ | h
+        · exact Or.inl h
+        · refine Or.inr ⟨hl1, ?_⟩
+          rw [h, fc, fp]; exact hl2
+        · exact Or.inr ⟨hl1, Or.inl (by have := pn_le5 a.2.1; omega)⟩
     split
     · -- the loop of `receive` ran out: the task returns
       refine ⟨by rw [ret_trace]; exact ho.ord, fun a ha => Or.inl (ret_End_halted s), by rw [ret_trace]; exact ho.reg⟩
